@@ -382,3 +382,86 @@ func VH_C19_Num() {
 	}
 	symAssert(out == strconv.Itoa(a)+"|"+strconv.Itoa(i)+"|"+nf(",")+"|"+nf(" "), "abs-round-number_format")
 }
+
+// ---- C19.split: what split returns is made of the input --------------------------------------------
+var vhC19Runes = []string{"a", "b", "\xc3\xa9", ",", "-", "^", "]", " "}
+var vhC19Seps = []string{",", "\xc3\xa9", "\xc3\xa9,", ",\xc3\xa9", ", ", "^-", "]a", ",-\xc3\xa9", "a-b"}
+
+// vhDeletion: is out obtainable from s by deleting only whole characters that occur in sep?
+func vhDeletion(s []string, out string, sep string) bool {
+	j := 0
+	for _, r := range s {
+		if len(out)-j >= len(r) && out[j:j+len(r)] == r {
+			j += len(r)
+			continue
+		}
+		in := false
+		for k := 0; k+len(r) <= len(sep); k++ {
+			if sep[k:k+len(r)] == r {
+				in = true
+			}
+		}
+		if !in {
+			return false
+		}
+	}
+	return j == len(out)
+}
+
+// VH_C19_Split: s is a sequence of up to N characters (ASCII letters, a two-byte letter, punctuation
+// with a meaning in regular expressions), split at one of 9 separators with and without a limit. The
+// parts concatenated are s with nothing but whole separator characters removed (no character is cut
+// in half, nothing that is not part of the separator disappears); with a single-character separator
+// the number of parts is one more than its number of occurrences; a part never contains it.
+func VH_C19_Split() {
+	n := symChoice(symParam("N", 3) + 1)
+	rs := make([]string, n)
+	s := ""
+	for i := range rs {
+		rs[i] = vhC19Runes[symChoice(len(vhC19Runes))]
+		s += rs[i]
+	}
+	k := symChoice(len(vhC19Seps))
+	sep := vhC19Seps[k]
+	symTag("sep:" + sep)
+	limited := symBool()
+	src := "{{ s|split(sep)|join('') }}|{{ s|split(sep)|length }}|{% for p in s|split(sep) %}{% if sep in p %}BAD{% endif %}{% endfor %}"
+	if limited {
+		src = "{{ s|split(sep, 2)|join('') }}|{{ s|split(sep, 2)|length }}|"
+	}
+	out, err := vhR(src, map[string]interface{}{"s": s, "sep": sep})
+	symCover("rendered")
+	symAssert(err == nil, "no-error")
+	if err != nil {
+		return
+	}
+	// out = concat | count | flags
+	bar2 := len(out) - 1
+	for bar2 >= 0 && out[bar2] != '|' {
+		bar2--
+	}
+	bar1 := bar2 - 1
+	for bar1 >= 0 && out[bar1] != '|' {
+		bar1--
+	}
+	if bar1 < 0 {
+		symAssert(false, "output-shape")
+		return
+	}
+	concat, count, flags := out[:bar1], out[bar1+1:bar2], out[bar2+1:]
+	symAssert(vhDeletion(rs, concat, sep), "parts-are-the-input-minus-separator-characters")
+	if k < 2 {
+		occ := 0
+		for _, r := range rs {
+			if r == sep {
+				occ++
+			}
+		}
+		want := occ + 1
+		if limited && want > 2 {
+			want = 2
+		}
+		symAssert(count == strconv.Itoa(want), "part-count")
+		symAssert(flags == "", "no-part-contains-the-separator")
+	}
+}
